@@ -119,6 +119,8 @@ def run_impl(cfg, workdir, sampler_hook=None, reuse=None, tag="run"):
     holder["r"] = r
     r.holder = holder
     base = S.RWMH if cfg["kind"] == "rwmh" else S.HMC
+    if cfg.get("visual"):
+        base = S.RWMH_visual if cfg["kind"] == "rwmh" else S.HMC_visual
 
     class Snap(base):
         def _evaluate_acceptance(self_):
@@ -145,7 +147,12 @@ def run_impl(cfg, workdir, sampler_hook=None, reuse=None, tag="run"):
 
     Snap.__name__ = base.__name__
     r.cfg = cfg
-    sampler = reuse.sampler if reuse is not None else Snap(seed=1)
+    if reuse is not None:
+        sampler = reuse.sampler
+    elif cfg.get("visual"):
+        sampler = Snap(animate_proposals=(cfg["visual"] == "animate"), seed=1)
+    else:
+        sampler = Snap(seed=1)
     rng = ScriptedRng(normals=[list(z) for z in cfg["zs"]], uniforms=list(cfg["us"]),
                       factors=list(cfg.get("factors", [])))
     sampler.rng = rng
